@@ -56,6 +56,8 @@ type Exploration struct {
 	Replay   string              `json:"replay,omitempty"`   // "native" (default) or "symx" (re-run of the recorded path in the interpreter; for engine-level obligations with no native counterpart)
 	Solver   string              `json:"solver,omitempty"`   // "z3" (default) or "cvc5"
 	SolverMs int                 `json:"solver_ms,omitempty"`
+	NoWitness bool               `json:"no_witness,omitempty"`
+	MaxWallS  int                `json:"max_wall_s,omitempty"`
 	Validate []map[string]string `json:"validate,omitempty"` // concrete input vectors for translator validation
 }
 
@@ -229,6 +231,70 @@ func (r *replayer) run(file string, rf *ReplayFile) (bool, string) {
 	}
 }
 
+// ---- witness batches: sampled completed paths re-executed natively in one go test per package
+
+type witnessItem struct {
+	Exploration string            `json:"exploration"`
+	Harness     string            `json:"harness"`
+	Params      map[string]int    `json:"params"`
+	Inputs      map[string]string `json:"inputs"`
+	Choices     map[string]int    `json:"choices"`
+}
+
+var wOKBy = map[string]int{}
+
+// runWitnessBatches returns the number of witnesses whose native run passed and a message per
+// witness whose native run did not (assumption false, assertion failed, panic, or no result).
+func runWitnessBatches(rp *replayer, witnesses map[string][]witnessItem) (int, []string) {
+	ok := 0
+	var bad []string
+	var pkgs []string
+	for p := range witnesses {
+		pkgs = append(pkgs, p)
+	}
+	sort.Strings(pkgs)
+	for _, pkg := range pkgs {
+		items := witnesses[pkg]
+		if len(items) == 0 {
+			continue
+		}
+		if err := rp.prepare(); err != nil {
+			bad = append(bad, "replay setup: "+err.Error())
+			continue
+		}
+		path := filepath.Join(rp.dir, "batch-"+strings.ReplaceAll(pkg, "/", "_")+".json")
+		b, _ := json.Marshal(items)
+		os.WriteFile(path, b, 0o644)
+		cmd := exec.Command("go1.26.8", "test", "-vet=off", "-v", "-count=1", "-timeout=600s", "-overlay", rp.ovPath, "-run", "^TestVxBatch$", "./"+pkg)
+		cmd.Dir = repoDir
+		cmd.Env = append(os.Environ(), "GOFLAGS=-mod=mod", "GOPROXY=off", "GOTOOLCHAIN=local", "VX_BATCH="+path)
+		out, _ := cmd.CombinedOutput()
+		status := map[int]string{}
+		for _, l := range strings.Split(string(out), "\n") {
+			if i := strings.Index(l, "VXBATCH "); i >= 0 {
+				f := strings.SplitN(strings.TrimSpace(l[i+8:]), " ", 2)
+				if len(f) == 2 {
+					n, _ := strconv.Atoi(f[0])
+					status[n] = f[1]
+				}
+			}
+		}
+		for k, it := range items {
+			st, seen := status[k]
+			switch {
+			case !seen:
+				bad = append(bad, fmt.Sprintf("%s witness %d: no result from the native run (%s)", it.Exploration, k, firstLines(string(out), 3)))
+			case st == "pass":
+				ok++
+				wOKBy[it.Exploration]++
+			default:
+				bad = append(bad, fmt.Sprintf("%s: native run says %q on inputs %v choices %v", it.Exploration, st, it.Inputs, it.Choices))
+			}
+		}
+	}
+	return ok, bad
+}
+
 // ---------------------------------------------------------------- main
 
 func main() {
@@ -371,6 +437,7 @@ type exploreSummary struct {
 	Cases        int            `json:"distinct_case_vectors"`
 	TwinViolated *bool          `json:"twin_violated,omitempty"`
 	Validated    int            `json:"traces_validated"`
+	Witnessed    int            `json:"sampled_paths_reexecuted_natively,omitempty"`
 }
 
 func cmdCheck(args []string) int {
@@ -456,6 +523,7 @@ func cmdCheck(args []string) int {
 	knownHit := map[string]int{}
 	totalViol := 0
 	validated := 0
+	witnesses := map[string][]witnessItem{}
 
 	for _, e := range todo {
 		sp := prog.Pkgs[e.Pkg]
@@ -470,7 +538,30 @@ func cmdCheck(args []string) int {
 		if e.SolverMs > 0 {
 			opt.SolverTimeMs = e.SolverMs
 		}
+		// wall-clock cap per exploration: a run that does not finish is reported as not clean
+		// (truncated), never left running (default 30 min quick, 3 h thorough)
+		wall := 1800
+		if tier == "thorough" {
+			wall = 3 * 3600
+		}
+		if e.MaxWallS > 0 {
+			wall = e.MaxWallS
+		}
+		if v, err := strconv.Atoi(os.Getenv("VX_WALL_S")); err == nil && v > 0 {
+			wall = v // sizing runs: find explorations that do not finish within a given time
+		}
+		opt.Deadline = time.Now().Add(time.Duration(wall) * time.Second)
+		if !e.NoWitness && e.Replay != "symx" && os.Getenv("VX_NO_WITNESS") == "" {
+			// sample completed paths for native re-execution (translator validation, see runWitnessBatches)
+			opt.WitnessMax, opt.WitnessEvery = 4, 9
+			if tier == "thorough" {
+				opt.WitnessMax = 8
+			}
+		}
 		res := interp.Explore(h, opt)
+		for _, w := range res.Witnesses {
+			witnesses[e.Pkg] = append(witnesses[e.Pkg], witnessItem{Exploration: e.ID, Harness: e.Fn, Params: e.Params, Inputs: w.Inputs, Choices: w.Choices})
+		}
 		sm := exploreSummary{ID: e.ID, Harness: e.Pkg + "." + e.Fn, Params: e.Params, Bounds: e.Bounds, Paths: res.Paths, Completed: res.Completed, Pruned: res.Pruned,
 			Asserts: res.Asserts, Discharged: res.Discharged, Decisions: res.Decisions, Steps: res.Steps, Queries: res.SolverQueries,
 			SolverS: res.SolverTime.Seconds(), MaxQueryS: res.MaxQuery.Seconds(), Fallbacks: res.Fallbacks, WallS: res.Wall.Seconds(), Reached: res.Reached, Cut: res.BudgetCuts,
@@ -583,6 +674,15 @@ func cmdCheck(args []string) int {
 			}
 		}
 		sums = append(sums, sm)
+	}
+	// translator validation on sampled paths: every witness must pass natively
+	wOK, wBad := runWitnessBatches(rp, witnesses)
+	validated += wOK
+	for k := range sums {
+		sums[k].Witnessed = wOKBy[sums[k].ID]
+	}
+	for _, m := range wBad {
+		notClean = append(notClean, "native re-execution of a sampled path disagrees: "+m)
 	}
 	for _, l := range violLines {
 		fmt.Println(l)
